@@ -285,6 +285,7 @@ func c13(run *ev.Run) int {
 		}
 	}
 	st.audit(0, true)
+	c13SharedSentinel(run)
 	serverPanicCheck(run, st.srv, "c13")
 	g1, _, r1, dp := connect.VerifPoolStats()
 	run.Count("pool.gets", int64(g1-g0))
@@ -1147,5 +1148,70 @@ func (s *c13State) closeResponseFirst(id uint64, procs, b int) {
 	if !ok {
 		cancel()
 		run.Violation("c13/close-response-first/"+c.name+"/hang", "one goroutine closed the receive side of a stream before the other had sent anything: Send / CloseRequest / CloseResponse did not all return", trunc(dump, 30000))
+	}
+}
+
+// c13SharedSentinel: handlers that return one package-level *connect.Error
+// (with some metadata set once, e.g. Retry-After) from many calls, each call
+// also setting trailers of its own. The error value belongs to the
+// application: the library may read it concurrently but must not write to it,
+// and no call's trailers may turn up in another call. First a sequential
+// history, then 8 goroutines at once (the race detector watches the map).
+func c13SharedSentinel(run *ev.Run) {
+	sentinel := connect.NewError(connect.CodeResourceExhausted, errors.New("busy, try later"))
+	sentinel.Meta().Set("Retry-After", "7")
+	srv := svc.NewServer()
+	defer srv.Close()
+	var seq uint64
+	one := func(cs *svc.ClientSet, protocol string, kind svc.Kind, phase string) {
+		id := fmt.Sprintf("sentinel-%d", atomic.AddUint64(&seq, 1))
+		prog := &svc.Program{Steps: []svc.Step{{Op: "recv"}}, Trailer: http.Header{"X-Call-Id": {id}}, Return: sentinel}
+		call := srv.Reg.New("c13s", prog)
+		defer srv.Reg.Drop(call)
+		cl := cs.Do(context.Background(), kind, call.ID, nil, []*gen.Msg{{Id: 1}})
+		run.Count("calls", 1)
+		run.Count("shared_sentinel.calls", 1)
+		run.Eval(fmt.Sprintf("shared-sentinel|%s|%s|%s", protocol, kind, phase))
+		key := fmt.Sprintf("c13/shared-sentinel/%s/%s/%s", protocol, kind, phase)
+		var ce *connect.Error
+		if !errors.As(cl.Err, &ce) || ce.Code() != connect.CodeResourceExhausted {
+			run.Violation(key+"/outcome", "the handler's error did not arrive: "+errStr(cl.Err), map[string]any{"call": id})
+			return
+		}
+		vals := append(append([]string{}, ce.Meta().Values("X-Call-Id")...), cl.Trailer.Values("X-Call-Id")...)
+		for _, v := range vals {
+			if v != id {
+				run.Violation(key+"/foreign-trailer", fmt.Sprintf("call %s sees the trailer value %q of another call", id, v), map[string]any{"call": id, "x_call_id_values": vals})
+				return
+			}
+		}
+	}
+	for _, h2 := range []bool{false, true} {
+		for _, protocol := range svc.Protocols {
+			cs := srv.RawClients(h2, svc.ProtoOpts(protocol, "proto")...)
+			kinds := []svc.Kind{svc.Unary, svc.ServerStream, svc.ClientStream}
+			if h2 {
+				kinds = append(kinds, svc.Bidi)
+			}
+			for _, kind := range kinds {
+				for i := 0; i < 3; i++ {
+					one(cs, protocol, kind, "sequential")
+				}
+				var wg sync.WaitGroup
+				for g := 0; g < 8; g++ {
+					wg.Add(1)
+					go func() {
+						defer wg.Done()
+						for i := 0; i < 4; i++ {
+							one(cs, protocol, kind, "concurrent")
+						}
+					}()
+				}
+				wg.Wait()
+			}
+		}
+	}
+	if got := fmt.Sprint(map[string][]string(sentinel.Meta())); got != fmt.Sprint(map[string][]string{"Retry-After": {"7"}}) {
+		run.Violation("c13/shared-sentinel/error-value-written", "the application's shared error value was modified by the library: its metadata is now "+trunc(got, 400), nil)
 	}
 }
